@@ -607,4 +607,7 @@ pub fn run(ctx: &Ctx) {
     let o = crate::bfs::explore(&m, max_depth as usize, |s| s.bad.clone(), 8);
     crate::bfs::finish(ctx, "fe.machine", &o, max_depth as usize);
     ctx.sample_tag("machine", json!({"note": "BFS over raw limb representations; each transition = one real field operation compared with integer arithmetic mod p", "depth": max_depth}));
+    // ---- (5) the 4-lane vector fields this build contains
+    crate::props::c01v::run_avx2(ctx);
+    crate::props::c01v::run_ifma(ctx);
 }
